@@ -481,6 +481,13 @@ pub fn check(case: &Case, obs: &Obs) -> Verdict {
     v.class_if(any_failure_closed, "lane-failure-with-sessions");
     v.class_if(any_stop_closed, "agent-stop-with-sessions");
     v.class_if(obs.stop_at.is_some(), "stop-trigger");
+    v.class_if(obs.req_while_vote, "request-while-stop-vote-outstanding(model)");
+    v.class_if(obs.coord_while_write_voted, "write-scheduled-while-write-task-voted(model)");
+    v.class_if(
+        obs.coord_while_write_voted && obs.remotes.iter().any(|r| r.reason.as_deref() == Some("Ok(AgentTimedOut)")),
+        "write-scheduled-in-vote-window-and-stop-was-unanimous",
+    );
+    v.class_if(obs.agent_end_at.map(|e| e < obs.checkpoint_seq).unwrap_or(false), "agent-end-op");
     v.class_if(obs.remotes.iter().any(|r| r.dropped_at.is_some()), "remote-dropped");
     v.class_if(obs.remotes.iter().any(|r| r.reason.as_deref() == Some("Ok(RemoteTimedOut)")), "remote-pruned");
     v.class_if(obs.remotes.iter().any(|r| r.reason.as_deref() == Some("Ok(AgentTimedOut)")), "agent-timed-out");
